@@ -89,7 +89,13 @@ def pack_branches(prog, pack_obj: ast.FunctionDef) -> list[PackBranch]:
     for c in calls_in(pack_obj):
         if isinstance(c.func, ast.Attribute) and c.func.attr == "pack" and c.args and isinstance(c.args[0], ast.Name):
             packed_names.add(c.args[0].id)
-    if not packed_names:
+    # ... or hands over as a display of two locals, `self.pack((subtype, payload))`, each assigned in the branches
+    split_names = None
+    for c in calls_in(pack_obj):
+        if isinstance(c.func, ast.Attribute) and c.func.attr == "pack" and c.args and isinstance(c.args[0], ast.Tuple) and len(c.args[0].elts) == 2 \
+                and all(isinstance(x, ast.Name) for x in c.args[0].elts):
+            split_names = (c.args[0].elts[0].id, c.args[0].elts[1].id)
+    if not packed_names and split_names is None:
         for a in ast.walk(chain):
             if isinstance(a, ast.Assign) and isinstance(a.value, ast.Tuple) and len(a.value.elts) == 2 and isinstance(a.targets[0], ast.Name):
                 packed_names.add(a.targets[0].id)
@@ -123,6 +129,22 @@ def pack_branches(prog, pack_obj: ast.FunctionDef) -> list[PackBranch]:
                                 b.subtype_exprs.append((stmt_, n.value.elts[0], pl))
                                 if conds:
                                     b.extra_conds[id(pl)] = conds
+            if split_names is not None and not b.subtype_exprs:
+                sub_n, pay_n = split_names
+                for par in [cur] + [x for s0 in cur.body for x in ast.walk(s0)]:
+                    for attr in ("body", "orelse"):
+                        blk = getattr(par, attr, None) if not (par is cur and attr == "orelse") else None
+                        if not isinstance(blk, list):
+                            continue
+                        pays = [a for a in blk if isinstance(a, ast.Assign) and len(a.targets) == 1 and norm(a.targets[0]) == pay_n]
+                        subs = [a for a in blk if isinstance(a, ast.Assign) and len(a.targets) == 1 and norm(a.targets[0]) == sub_n]
+                        if pays and len(subs) == 1:
+                            for a in pays:
+                                for leaf, conds in alternatives(a.value, []):
+                                    pl = normalize_tuple(prog, module, leaf)
+                                    b.subtype_exprs.append((a, subs[0].value, pl))
+                                    if conds:
+                                        b.extra_conds[id(pl)] = conds
             out.append(b)
         nxt = cur.orelse
         cur = nxt[0] if len(nxt) == 1 and isinstance(nxt[0], ast.If) else None
